@@ -200,37 +200,51 @@ theorem cuboidMasks_scale_invariant (l : ℝ) (hl : 0 < l) (dim pol x : V3 ℝ) 
 
 /-! ### Triangle -/
 
-/-- Triangle, one edge integral `I` of `triangle_Bfield`: multiplying the vertex–observer vector
-`R` and the edge vector `L` by the same `l > 0` divides `I` by `l`.  No non-degeneracy hypothesis
-is needed: the argument of each logarithm is a ratio of two lengths (so it is literally unchanged),
-and the prefactor `1/l_edge` carries the `1/l`. -/
-theorem triEdgeI_scale (l : ℝ) (hl : 0 < l) (R L : V3 ℝ) :
-    triEdgeI (vs l R) (vs l L) = 1 / l * triEdgeI R L :=
-  triEdgeI_scale' mu0R l hl R L
+/-- Triangle, one edge integral `I` of `triangle_Bfield`: multiplying the two vertex–observer vectors
+`R`, `Rn` of the edge's ends and the edge vector `L` by the same `l > 0` divides `I` by `l`.  No
+non-degeneracy hypothesis is needed: every branch test compares lengths with lengths or with 0, or a
+squared length with a multiple of a squared length (`rn < r`, `rho2 <= 1e-30 * l2`, `a < 0`, `c > 0`,
+`a >= 0`, `c < 0`), the argument of each logarithm is a ratio of products of lengths of equal degree (so
+it is literally unchanged), and the division by `l_edge` carries the `1/l`. -/
+theorem triEdgeI_scale (l : ℝ) (hl : 0 < l) (R Rn L : V3 ℝ) :
+    triEdgeI (vs l R) (vs l Rn) (vs l L) = 1 / l * triEdgeI R Rn L :=
+  triEdgeI_scale' mu0R l hl R Rn L
 
-/-- the switch between the general formula and the edge-extension formula of `triangle_Bfield`
-(`ind > 1.0e-12 * l`) is taken at the same observers whatever the length unit: both sides of the
-comparison are lengths and scale by `l`; `triEdgeI` is the first formula where the test holds and
-the second where it fails -/
-theorem triEdge_branch_scale_free (l : ℝ) (hl : 0 < l) (R L : V3 ℝ) :
-    (triEdgeFar (V3.dot (vs l R) (vs l R)) (V3.dot (vs l L) (vs l L)) (V3.dot (vs l R) (vs l L)) ↔
-      triEdgeFar (V3.dot R R) (V3.dot L L) (V3.dot R L)) ∧
-    triEdgeI R L = triEdgeS (V3.dot R R) (V3.dot L L) (V3.dot R L) := by
-  refine ⟨?_, triEdgeI_eq mu0R R L⟩
-  rw [dot_vs_vs mu0R, dot_vs_vs mu0R, dot_vs_vs mu0R]
-  exact triEdgeFar_scale l hl _ _ _
+/-- the switch between the general formula and the on-edge value of `triangle_Bfield`
+(`(rho2 <= 1e-30 * l2) & (a < 0) & (c > 0)`, with `rho2` taken from the nearer end `rn < r`) is taken at the
+same observers whatever the length unit: the only tolerance left is relative to the edge length (squared
+distance from the edge line against `1e-30` times the squared edge length), the other comparisons are of a
+length with 0; `triEdgeI` is the on-edge value where the test holds and the cancellation-free general formula
+where it fails -/
+theorem triEdge_branch_scale_free (l : ℝ) (hl : 0 < l) (R Rn L : V3 ℝ) :
+    (triEdgeOn (V3.dot (vs l R) (vs l R)) (V3.dot (vs l Rn) (vs l Rn)) (V3.dot (vs l L) (vs l L))
+        (V3.dot (vs l R) (vs l L)) (V3.dot (vs l Rn) (vs l L))
+        (V3.dot (V3.cross (vs l R) (vs l L)) (V3.cross (vs l R) (vs l L)))
+        (V3.dot (V3.cross (vs l Rn) (vs l L)) (V3.cross (vs l Rn) (vs l L))) ↔
+      triEdgeOn (V3.dot R R) (V3.dot Rn Rn) (V3.dot L L) (V3.dot R L) (V3.dot Rn L)
+        (V3.dot (V3.cross R L) (V3.cross R L)) (V3.dot (V3.cross Rn L) (V3.cross Rn L))) ∧
+    triEdgeI R Rn L = triEdgeS (V3.dot R R) (V3.dot Rn Rn) (V3.dot L L) (V3.dot R L) (V3.dot Rn L)
+      (V3.dot (V3.cross R L) (V3.cross R L)) (V3.dot (V3.cross Rn L) (V3.cross Rn L)) := by
+  refine ⟨?_, triEdgeI_eq mu0R R Rn L⟩
+  simp only [dot_vs_vs mu0R, cross_dot_scale mu0R]
+  exact triEdgeOn_scale l hl _ _ _ _ _ _ _
 
 -- non-vacuity: both branches of the edge integral occur — observer off the edge line
--- (R = (1,0,0), L = (0,1,0): ind = 1), and observer on the edge's extension (R = (-2,0,0), L = (1,0,0): ind = 0)
-example : triEdgeFar (V3.dot (⟨1, 0, 0⟩ : V3 ℝ) ⟨1, 0, 0⟩) (V3.dot (⟨0, 1, 0⟩ : V3 ℝ) ⟨0, 1, 0⟩)
-    (V3.dot (⟨1, 0, 0⟩ : V3 ℝ) ⟨0, 1, 0⟩) := by
-  simp [triEdgeFar, V3.dot]
+-- (R = (1,0,0), L = (0,1,0): rho2 = 1 > 1e-30), and observer on the edge (R = (-1/2,0,0), L = (1,0,0): rho2 = 0, a = -1/2, c = 1/2)
+example : ¬ triEdgeOn (V3.dot (⟨1, 0, 0⟩ : V3 ℝ) ⟨1, 0, 0⟩) (V3.dot (⟨1, 1, 0⟩ : V3 ℝ) ⟨1, 1, 0⟩)
+    (V3.dot (⟨0, 1, 0⟩ : V3 ℝ) ⟨0, 1, 0⟩) (V3.dot (⟨1, 0, 0⟩ : V3 ℝ) ⟨0, 1, 0⟩) (V3.dot (⟨1, 1, 0⟩ : V3 ℝ) ⟨0, 1, 0⟩)
+    (V3.dot (V3.cross (⟨1, 0, 0⟩ : V3 ℝ) ⟨0, 1, 0⟩) (V3.cross (⟨1, 0, 0⟩ : V3 ℝ) ⟨0, 1, 0⟩))
+    (V3.dot (V3.cross (⟨1, 1, 0⟩ : V3 ℝ) ⟨0, 1, 0⟩) (V3.cross (⟨1, 1, 0⟩ : V3 ℝ) ⟨0, 1, 0⟩)) := by
+  simp [triEdgeOn, V3.dot, V3.cross]
+example : triEdgeOn (V3.dot (⟨-1 / 2, 0, 0⟩ : V3 ℝ) ⟨-1 / 2, 0, 0⟩) (V3.dot (⟨1 / 2, 0, 0⟩ : V3 ℝ) ⟨1 / 2, 0, 0⟩)
+    (V3.dot (⟨1, 0, 0⟩ : V3 ℝ) ⟨1, 0, 0⟩) (V3.dot (⟨-1 / 2, 0, 0⟩ : V3 ℝ) ⟨1, 0, 0⟩) (V3.dot (⟨1 / 2, 0, 0⟩ : V3 ℝ) ⟨1, 0, 0⟩)
+    (V3.dot (V3.cross (⟨-1 / 2, 0, 0⟩ : V3 ℝ) ⟨1, 0, 0⟩) (V3.cross (⟨-1 / 2, 0, 0⟩ : V3 ℝ) ⟨1, 0, 0⟩))
+    (V3.dot (V3.cross (⟨1 / 2, 0, 0⟩ : V3 ℝ) ⟨1, 0, 0⟩) (V3.cross (⟨1 / 2, 0, 0⟩ : V3 ℝ) ⟨1, 0, 0⟩)) := by
+  simp [triEdgeOn, V3.dot, V3.cross]
   norm_num
-example : ¬ triEdgeFar (V3.dot (⟨-2, 0, 0⟩ : V3 ℝ) ⟨-2, 0, 0⟩) (V3.dot (⟨1, 0, 0⟩ : V3 ℝ) ⟨1, 0, 0⟩)
-    (V3.dot (⟨-2, 0, 0⟩ : V3 ℝ) ⟨1, 0, 0⟩) := by
-  simp [triEdgeFar, V3.dot]
-example : triEdgeI (vs 1000 (⟨1, 0, 0⟩ : V3 ℝ)) (vs 1000 ⟨0, 1, 0⟩) = 1 / 1000 * triEdgeI ⟨1, 0, 0⟩ ⟨0, 1, 0⟩ :=
-  triEdgeI_scale 1000 (by norm_num) _ _
+example : triEdgeI (vs 1000 (⟨1, 0, 0⟩ : V3 ℝ)) (vs 1000 ⟨1, 1, 0⟩) (vs 1000 ⟨0, 1, 0⟩) =
+    1 / 1000 * triEdgeI ⟨1, 0, 0⟩ ⟨1, 1, 0⟩ ⟨0, 1, 0⟩ :=
+  triEdgeI_scale 1000 (by norm_num) _ _ _
 
 /-- Triangle, `solid_angle`: the solid angle under which the triangle is seen is unchanged when
 the three vertex–observer vectors and their lengths are multiplied by `l > 0` (numerator and
